@@ -102,11 +102,11 @@ Example C02_example_no_namespaces :
 Proof. vm_compute. reflexivity. Qed.
 
 (* ---- the open findings: the target statement is false without their guards ------------------------------- *)
-(* C02-empty-text-node (DESIGN 17): an empty text node makes the serializer raise *)
-Theorem C02_empty_text_refuted : exists t,
-  serialize [] (default_order (bfs_of t)) t = Crash InvalidCodePath.
-Proof. exists (Tag [] [114%N] [] [Text []]). vm_compute. reflexivity. Qed.
-Print Assumptions C02_empty_text_refuted.
+(* regression (C02-empty-text-node, fixed by bfce419): an empty text node is written as nothing *)
+Example C02_regression_empty_text :
+  let t := Tag [] [114%N] [] [Text []; Text [97%N]] in
+  reparse (serialize [] (default_order (bfs_of t)) t) = Some (merge_tree t).
+Proof. vm_compute. reflexivity. Qed.
 
 (* C02-pi-content-leading-whitespace: <?t  x?> is read back with content "x" *)
 Theorem C02_pi_leading_whitespace_refuted : exists t t',
@@ -117,11 +117,11 @@ Proof.
 Qed.
 Print Assumptions C02_pi_leading_whitespace_refuted.
 
-(* C02-namespace-uri-not-escaped: the namespace a&b is written raw, the output is not well-formed *)
-Theorem C02_namespace_uri_refuted : exists t,
-  reparse (serialize [] (default_order (bfs_of t)) t) = None.
-Proof. exists (Tag [97; 38; 98]%N [114%N] [] []). vm_compute. reflexivity. Qed.
-Print Assumptions C02_namespace_uri_refuted.
+(* regression (C02-namespace-uri-not-escaped, fixed by d973cc6): the namespace a&b is escaped in the declaration *)
+Example C02_regression_namespace_uri :
+  let t := Tag [97; 38; 98]%N [114%N] [([97; 38; 98]%N, [107%N], [118%N])] [] in
+  reparse (serialize [] (default_order (bfs_of t)) t) = Some (merge_tree t).
+Proof. vm_compute. reflexivity. Qed.
 
 (* C02-attribute-named-xmlns: the attribute is read back as a default namespace declaration *)
 Theorem C02_attribute_named_xmlns_refuted : exists t t',
